@@ -31,6 +31,9 @@ func chaosSizes(r *Run, g *Rng) (clients, ops, faults int, window time.Duration)
 // hold identical state.
 func (c *chaos) finalChecks() {
 	r := c.r
+	if r.Opts["monitors"] == "off" {
+		return
+	}
 	for s := int64(0); s < int64(c.o.Shards); s++ {
 		views := c.w.ShardViews(s)
 		var names []string
@@ -126,6 +129,10 @@ func propClass(running, owner, class string) string {
 }
 
 func runChaosProp(r *Run, prop string, tune func(o *chaosOpts, g *Rng)) {
+	runChaosPropWith(r, prop, tune, nil)
+}
+
+func runChaosPropWith(r *Run, prop string, tune func(o *chaosOpts, g *Rng), got func(c *chaos)) {
 	g := NewRng(r.Seed, "sizes", prop)
 	clients, ops, faults, window := chaosSizes(r, g)
 	o := chaosOpts{Prop: prop, Nodes: 3, RF: 3, Shards: uint32(g.Range(1, 2)), Clients: clients, OpsPerClient: ops, Keys: g.Range(3, 8),
@@ -140,6 +147,9 @@ func runChaosProp(r *Run, prop string, tune func(o *chaosOpts, g *Rng)) {
 	r.Knobs["plan_size"] = o.Faults
 	c := newChaos(r, o)
 	defer c.finish()
+	if got != nil {
+		got(c)
+	}
 	if c.run() {
 		c.finalChecks()
 	}
